@@ -22,7 +22,9 @@ const HEX_B: &str = "ba7816bf8f01cfea414140de5dae2223b00361a396177a9cb410ff61f20
 const ROOT_DIGESTS: [&str; 7] = [HEX_A, HEX_B, "d", "r", "e", "1f600", "abc"];
 // digests in prefix relation with each other and with the marker letters: `_` sorts between digits and lower-case letters,
 // so comparing identifier TEXT differs from comparing (digest, tail) field-wise exactly on such pairs
-const CHILD_DIGESTS: [&str; 6] = [HEX_B, "abc", "ab", "d5", "da", "e0"];
+// "ver_2" / "a_b": application-supplied digests (reserved field "#") that contain the separator `_`; at index >= 2 the printed form
+// `<index>-<digest>_<tail>` must still split at the LAST `_` (seed C19-m7: a parser splitting at the first one)
+const CHILD_DIGESTS: [&str; 8] = [HEX_B, "abc", "ab", "d5", "da", "e0", "ver_2", "a_b"];
 const FORCED: [u32; 9] = [2, 9, 10, 11, 99, 100, 999, 1000, u32::MAX - 1];
 
 #[derive(Clone, Debug)]
